@@ -269,36 +269,58 @@ def run(chk):
             child, par = par, getattr(par, '_parent', None)
         return False
 
+    def _canon_source(fi, a, v, depth):
+        if isinstance(v, _ast.Call) and _norm(v.func) == 'self._find_name':
+            return True
+        if isinstance(v, _ast.Name):
+            return _canonical(fi, a, v.id, depth + 1)
+        if isinstance(v, _ast.Attribute) and v.attr == 'name':     # the name of an element is canonical by construction
+            return True
+        if isinstance(v, _ast.Constant) and v.value is None:      # no child: the store is not reached with it (tested)
+            return True
+        if isinstance(v, _ast.Subscript) and isinstance(v.slice, _ast.Constant) and v.slice.value == 'name' and \
+                isinstance(v.value, _ast.Name):
+            # _find_name inlined: the 'name' entry of the reference find_child_reference returns
+            refs = [a2.value for a2 in _own(fi.node) if isinstance(a2, _ast.Assign) and
+                    any(isinstance(t, _ast.Name) and t.id == v.value.id for t in a2.targets)]
+            return bool(refs) and all((isinstance(r_, _ast.Call) and isinstance(r_.func, _ast.Attribute) and
+                                       r_.func.attr == 'find_child_reference') or
+                                      (isinstance(r_, _ast.Constant) and r_.value is None) for r_ in refs)
+        return False
+
     def _canonical(fi, node, k, depth=0):
+        """on every path to `node` the variable k was last bound to a canonical name or found to be a key of the by-name
+        maps (flow-sensitive: a parameter may be re-bound from _find_name on the branch where it is not a key)"""
         if _guarded(node, k):
             return True
-        if depth > 3 or k in fi.params:
+        if depth > 3:
             return False
-        srcs = [n for n in _own(fi.node) if isinstance(n, _ast.Assign) and
+        g = cfg_of(fi)
+        target = g.node_for(node)
+        starts = [ENTRY] if k in fi.params else []
+        canon_nodes = set()
+        defs = [n for n in _own(fi.node) if isinstance(n, _ast.Assign) and
                 any(isinstance(t, _ast.Name) and t.id == k for t in n.targets)]
-        if not srcs:
+        if not defs and k not in fi.params:
             return False
-        for a in srcs:
-            v = a.value
-            if isinstance(v, _ast.Call) and _norm(v.func) == 'self._find_name':
-                continue
-            if isinstance(v, _ast.Name) and _canonical(fi, a, v.id, depth + 1):
-                continue
-            if isinstance(v, _ast.Attribute) and v.attr == 'name':     # the name of an element is canonical by construction
-                continue
-            if isinstance(v, _ast.Constant) and v.value is None:      # no child: the store is not reached with it (tested)
-                continue
-            if isinstance(v, _ast.Subscript) and isinstance(v.slice, _ast.Constant) and v.slice.value == 'name' and \
-                    isinstance(v.value, _ast.Name):
-                # _find_name inlined: the 'name' entry of the reference find_child_reference returns
-                refs = [a2.value for a2 in _own(fi.node) if isinstance(a2, _ast.Assign) and
-                        any(isinstance(t, _ast.Name) and t.id == v.value.id for t in a2.targets)]
-                if refs and all((isinstance(r_, _ast.Call) and isinstance(r_.func, _ast.Attribute) and
-                                 r_.func.attr == 'find_child_reference') or
-                                (isinstance(r_, _ast.Constant) and r_.value is None) for r_ in refs):
-                    continue
+        for a in defs:
+            nid = g.node_for(a)
+            if _canon_source(fi, a, a.value, depth):
+                canon_nodes.add(nid)
+            else:
+                starts.append(nid)
+        if not starts:
+            return True
+
+        def ok_edge(src, dst, lab):
+            nd = g.nodes[src]
+            if nd.kind != 'test':
+                return True
+            return not ((lab == 'true' and _member_of_maps(nd.ast, k)) or (lab == 'false' and _nonmember(nd.ast, k)))
+        if target in starts:
             return False
-        return True
+        r = g.reach(starts, avoid=canon_nodes, labels_ok=ok_edge)
+        return target not in r
 
     nx_ = 0
     el_cls = ix.cls('core.ElementList')
